@@ -28,6 +28,9 @@ CLAIMED = {
  "C19": ("model_checking", "differential bounded symbolic execution: three specific loaders and autometa.Load on the same symbolic input in one path",
          "auto's metadata/ICC/err-ness equals the first succeeding specific loader's, error without metadata when none succeeds, stream replays the input; over 12 arbitrary bytes, all skeleton families at every truncation, and 9 polyglots.",
          "Trusted: executor, z3, deterministic zlib stub. The oracle is the specific loaders themselves (differential), as the property states.", "DESIGN.md 5 C19"),
+ "C15": ("model_checking", "bounded symbolic execution of the three conversion helpers against the real image/draw.Draw executed symbolically; all pixel bytes symbolic; bit-vector equality per output byte",
+         "For 15 source types x 3 (thorough 8) geometries x 6 parallelism values, with every byte of pixel storage symbolic, the helper's Pix/Stride/Rect equal those produced by draw.Draw(Src) for all pixel contents at once; identity for same-type input; input unmodified.",
+         "Trusted: executor incl. function-level merging and if-conversion (cross-validated natively on sampled models), z3, image/draw of Go 1.23.5 as the oracle; worker goroutines executed sequentially.", "DESIGN.md 5 C15"),
  "C16": ("model_checking", "bounded symbolic execution of icc.ProfileReader (go/ssa -> SMT-LIB2 bit-vectors, z3)",
          "All 2^1024 headers carrying 'acsp' are covered by one symbolic 128-byte header; each Header field is a bit-vector identity against ICC.1:2010 Table 17 offsets; a header with any other signature is shown to be rejected.",
          "Trusted: executor, z3, stubs for fmt.Sprintf (format+argument terms compared) and time.Date (argument terms compared). Tag table is a fixed minimal one.", "DESIGN.md 5 C16"),
